@@ -4,7 +4,7 @@ import os
 import re
 import vlib
 
-CONFIGS = [("memb", 1, "memb+sys_membarrier"), ("memb", 0, "memb fallback (mb)"), ("mb", 0, "mb flavor"), ("qsbr", 0, "qsbr flavor")]
+CONFIGS = [("memb", 1, "memb+sys_membarrier"), ("memb", 0, "memb fallback (mb)"), ("mb", 0, "mb flavor"), ("qsbr", 0, "qsbr flavor"), ("bp", 1, "bp+sys_membarrier"), ("bp", 0, "bp fallback (mb)")]
 ORACLE_OWNER = {"gp": "C01", "litmus": "C01", "DEADLOCK": "C02", "BUDGET": "C02", "sigbalance": "C19",
                 "SELFLOCK": "C02", "BADUNLOCK": "C02"}
 DRV = os.path.join(vlib.LEAN, ".lake", "build", "bin", "drv_gp")
@@ -17,10 +17,11 @@ def build():
         ok, log = vlib.cc(out, srcs, ["-w", "-D" + fl])
         if not ok:
             return False, log
-    srcs[0] = os.path.join(vlib.HARN, "scen", "gp_qsbr.c")
-    ok, log = vlib.cc("gp_qsbr", srcs, ["-w"])
-    if not ok:
-        return False, log
+    for nm in ("gp_qsbr", "gp_bp"):
+        srcs[0] = os.path.join(vlib.HARN, "scen", nm + ".c")
+        ok, log = vlib.cc(nm, srcs, ["-w"])
+        if not ok:
+            return False, log
     return True, ""
 
 
@@ -50,7 +51,7 @@ def one(flavor, memb, seed, readers, updaters, rops, uops, extra=()):
 
 def plan(rng, k, emphasis):
     """scenario parameters for run k"""
-    readers = 1 + k % 4
+    readers = 1 + k % 4 if k % 11 != 10 else 9 + k % 9
     updaters = 1 + (k // 4) % 3
     extra = []
     if emphasis == "liveness" and k % 3 == 1:
@@ -103,9 +104,9 @@ def suite(chk, nseeds, emphasis, own_kinds, rops=30, uops=3, extra_all=()):
     chk.cov["distinct_nontrivial"] = len(nontriv)
     chk.cov["runs_per_config"] = per_cfg
     chk.cov["branch_histogram"] = hist
-    chk.cov["rule"] = ("schedules of harness/scen/gp.c (real src/urcu.c and src/urcu-qsbr.c under the shim; 1-4 readers with nested lock/unlock, "
+    chk.cov["rule"] = ("schedules of harness/scen/gp.c (real src/urcu.c, src/urcu-qsbr.c and src/urcu-bp.c under the shim; 1-4 readers with nested lock/unlock, "
                        "register/unregister churn, parked sections; 1-3 concurrent synchronize_rcu callers; futex fault plans) "
-                       "drawn from VERIF_SEED with random-walk and PCT strategies, for memb+membarrier, memb fallback, mb and qsbr (quiescent_state/offline/online/self-synchronize); "
+                       "drawn from VERIF_SEED with random-walk and PCT strategies, for memb+membarrier, memb fallback, mb, qsbr (quiescent_state/offline/online/self-synchronize) and bp (automatic registration, exit destructor; with and without sys_membarrier); "
                        "every event replayed on Driver/Gp.lean; non-trivial = contains a complete two-pass grace period that "
                        "had to classify an active reader; distinct = different (config, driver coverage summary)")
     return fails
@@ -140,7 +141,7 @@ def report(chk, fails, own_kinds, search):
                                          what="the code no longer issues the fence the x86-TSO proof needs (%s); Lean-checked TSO run of the algorithm without it violates gp_guarantee and gp_litmus" % dmsg[:160]))
             return
     chk.fail("divergence" if f["verdict"] != "crash" else "crash",
-             dict(f, scenario="gp", correspondence="Driver/Gp.lean vs src/urcu.c, src/urcu-qsbr.c + static headers",
+             dict(f, scenario="gp", correspondence="Driver/Gp.lean vs src/urcu.c, src/urcu-qsbr.c, src/urcu-bp.c + static headers",
                   what="the implementation is no longer a run of the proven model (or fails an oracle owned by another property: %s)"
                        % ",".join(sorted(set(sum([x.get("kinds", []) for x in fails], []))))), nofail=True)
 
